@@ -127,12 +127,17 @@ impl Report {
     pub fn finish(mut self) -> i32 {
         let root = verif_root();
         let wall = self.t0.elapsed().as_secs_f64();
-        if !self.machinery.is_empty() {
+        if !self.machinery.is_empty() && self.violations.is_empty() {
             for m in &self.machinery {
                 println!("MACHINERY-ERROR property={} {}", self.prop, m);
             }
             // no evidence for a run whose engine failed
             return 2;
+        }
+        // violations were demonstrated on completed executions of the real code: they stand even
+        // if other executions of the same run ran into engine trouble, which is only noted
+        for m in &self.machinery {
+            println!("MACHINERY-NOTE property={} {}", self.prop, m);
         }
         for (i, k) in self.known.iter().enumerate() {
             if self.known_hit[i] {
